@@ -685,6 +685,15 @@ func (r *vRig) runScenario(t *testing.T, sc *vScenario) (events []vEvent, hung b
 				end["fresh"] = []string{}
 				end["metrics"] = map[string]interface{}{}
 			}
+			if end["avail"] != 0 || end["gauge"] != 0 || end["heaps"] != 0 {
+				// leftover registrations hold channels of this bubble: never reuse the context
+				hung = true
+			}
+			for _, k := range end["fresh"].([]string) {
+				if k != "noproxies" {
+					hung = true
+				}
+			}
 			r.emit(end)
 			VerifHook = nil
 			close(r.ctx.proxyPolls)
